@@ -61,7 +61,8 @@ def reg(spec):
 reg(Spec('C17', ['c17:C17'],
          quick=[('CORRUPT', 1500), ('ADV', 1500), ('DUPLEX', 500), ('HDR', 500)],
          thorough=[('CORRUPT', 40000), ('ADV', 40000), ('DUPLEX', 10000), ('HDR', 10000)],
-         overrides={'ADV': {'adv_plausible': 0.4, 'adv_flood': 0.1}},
+         overrides={'ADV': {'adv_plausible': 0.4, 'adv_flood': 0.1, 'misuse': 0.15, 'misuse_focus': [0, 0, 4, 1],
+                            'at_limit_attempts': 0.4, 'settings_bias': {3: [1, 2, 100]}}},
          rule='one evaluation = one simulated two-endpoint run (seeded workload + schedule + faults); '
               'non-trivial = at least one receive_data call on a direction that a byte/frame fault or the adversary '
               'had touched; distinct = distinct abstract traces (hash of per-step op/frame-type/outcome/event-type sequence)'))
@@ -72,6 +73,7 @@ R_DISTINCT = '; distinct = distinct abstract traces (hash of the per-step op / f
 reg(Spec('C02', ['c02:C02'],
          quick=[('DUPLEX', 1500), ('HDR', 1500), ('UPGRADE', 300), ('RACE', 500)],
          thorough=[('DUPLEX', 30000), ('HDR', 30000), ('UPGRADE', 5000), ('RACE', 10000)],
+         overrides={'*': {'push': 0.15, 'rsv': 1.5, 'misuse': 0.15, 'misuse_focus': [4, 0], 'aftermath': 0.3}},
          rule=R_RUN + 'non-trivial = a header block of >= 2 fragments, padding, or priority fields was emitted' + R_DISTINCT))
 reg(Spec('C03', ['c03:C03'],
          quick=[('FLOW', 2000), ('RACE', 800), ('DUPLEX', 800)],
@@ -84,12 +86,13 @@ reg(Spec('C04', ['c04:C04'],
 reg(Spec('C05', ['c05:C05'],
          quick=[('FLOW', 2500), ('RACE', 1000)],
          thorough=[('FLOW', 50000), ('RACE', 20000)],
-         overrides={'*': {'no_manual_winc': True, 'no_over_ack': True, 'ops_boost': {'race': 3}}},
+         overrides={'*': {'no_manual_winc': True, 'no_over_ack': True, 'ops_boost': {'race': 3}, 'push': 0.15, 'rsv': 1.5}},
          rule=R_RUN + 'non-trivial = an advertised window was driven to zero at least once' + R_DISTINCT,
          assumptions=['applications acknowledge exactly the bytes they received (no manual window increments, no over-acknowledgement): the premise of the property']))
 reg(Spec('C07', ['c07:C07'],
          quick=[('ADV', 2000), ('CORRUPT', 1500), ('DUPLEX', 500)],
          thorough=[('ADV', 50000), ('CORRUPT', 30000), ('DUPLEX', 10000), ('RACE', 10000)],
+         overrides={'ADV': {'misuse': 0.15, 'misuse_focus': [0, 0, 4], 'at_limit_attempts': 0.3}},
          rule=R_RUN + 'non-trivial = events were produced from a direction touched by the adversary or a fault' + R_DISTINCT))
 reg(Spec('C18', ['c18:C18'],
          quick=[('CORRUPT', 2000), ('ADV', 2000), ('DUPLEX', 300)],
@@ -107,15 +110,17 @@ reg(Spec('C26', ['c26:C26'],
          overrides={'*': {'ops_boost': {'ping': 4}, 'ping_burst': 0.15, 'adv_ping_flood': 0.08}},
          rule=R_RUN + 'non-trivial = several PINGs in one receive_data call, or PINGs on a faulted direction' + R_DISTINCT))
 reg(Spec('C29', ['c29:C29'],
-         quick=[('MISUSE', 2500), ('RACE', 500)],
-         thorough=[('MISUSE', 60000), ('RACE', 10000), ('CLOSE', 10000)],
+         quick=[('MISUSE', 2500), ('RACE', 500), ('FLOW', 600)],
+         thorough=[('MISUSE', 60000), ('RACE', 10000), ('CLOSE', 10000), ('FLOW', 10000)],
+         overrides={'*': {'push': 0.15, 'rsv': 1.5}, 'FLOW': {'ops_boost': {'settings': 3}, 'settings_churn': 0.15}},
          rule=R_RUN + 'non-trivial = at least one public call raised' + R_DISTINCT))
 
 reg(Spec('C01', ['c01:C01'],
          quick=[('DUPLEX', 1500), ('RACE', 1200), ('HDR', 800), ('UPGRADE', 400), ('FLOW', 400)],
          thorough=[('DUPLEX', 40000), ('RACE', 40000), ('HDR', 20000), ('UPGRADE', 10000), ('FLOW', 10000)],
          rule=R_RUN + 'non-trivial = >= 2 concurrent streams and >= 1 failed call followed by later traffic and >= 1 mid-frame delivery' + R_DISTINCT,
-         overrides={'*': {'matrix_outbound': False, 'small_closed': 0.0, 'small_backlog': False, 'big_windows': False}},
+         overrides={'*': {'matrix_outbound': False, 'small_closed': 0.0, 'small_backlog': False, 'big_windows': False, 'push': 0.12,
+                          'rsv': 1.0}},
          assumptions=['closed-stream memory at its default (65536): frames on forgotten streams are the business of C20',
                       'senders run with the default outbound validation and normalisation (a sender with validation off may emit blocks the peer must refuse: C15)',
                       'applications are HTTP-semantically sane in calls the generator classes as valid (declared content-length equals body, no body on no-content responses, header lists within the peer MAX_HEADER_LIST_SIZE, header bytes decodable in the peer header_encoding)',
@@ -125,12 +130,14 @@ reg(Spec('C13', ['c13:C13'],
          quick=[('HDR', 2500), ('DUPLEX', 1000)],
          thorough=[('HDR', 60000), ('DUPLEX', 20000), ('RACE', 10000)],
          overrides={'*': {'matrix_outbound': True, 'small_closed': 0.0, 'small_backlog': False, 'misuse': 0.3,
-                          'misuse_focus': [0, 4, 4, 14], 'push': 0.2, 'ops_boost': {'push': 3}}},
+                          'misuse_focus': [0, 4, 4, 14], 'push': 0.2, 'ops_boost': {'push': 3}, 'at_limit_attempts': 0.4,
+                          'settings_bias': {3: [1, 2, 100]}, 'aftermath': 0.3}},
          rule=R_RUN + 'non-trivial = a header-carrying call raised and a later one on the same endpoint succeeded' + R_DISTINCT))
 reg(Spec('C14', ['c14:C14'],
          quick=[('HDR', 3000), ('DUPLEX', 500)],
          thorough=[('HDR', 80000), ('DUPLEX', 10000)],
-         overrides={'*': {'misuse': 0.3}},
+         overrides={'*': {'misuse': 0.3, 'aftermath': 0.4, 'push': 0.15, 'ops_boost': {'push': 2}, 'at_limit_attempts': 0.4,
+                          'settings_bias': {3: [1, 2, 100]}}},
          rule=R_RUN + 'non-trivial = a header list that needed repair, or a sensitive field, was emitted' + R_DISTINCT))
 
 reg(Spec('C06', ['c06:C06'],
@@ -144,7 +151,8 @@ reg(Spec('C06', ['c06:C06'],
 reg(Spec('C08', ['c08:C08'],
          quick=[('MISUSE', 2500), ('DUPLEX', 800), ('UPGRADE', 500)],
          thorough=[('MISUSE', 60000), ('DUPLEX', 20000), ('UPGRADE', 10000)],
-         overrides={'MISUSE': {'misuse_focus': [0, 4, 4, 14, 1, 2], 'push': 0.2, 'ops_boost': {'push': 3}}},
+         overrides={'MISUSE': {'misuse_focus': [0, 0, 4, 4, 14, 1, 2], 'push': 0.2, 'ops_boost': {'push': 3}, 'aftermath': 0.4,
+                               'hdr_variety': 1.0}},
          rule=R_RUN + 'non-trivial = at least one ordering call (headers/data/end/push/prioritize/alt-svc) was refused' + R_DISTINCT))
 reg(Spec('C09', ['c09:C09'],
          quick=[('DUPLEX', 1200), ('RACE', 800), ('ADV', 2000), ('MISUSE', 600)],
@@ -155,7 +163,7 @@ reg(Spec('C10', ['c10:C10'],
          quick=[('RACE', 2500), ('DUPLEX', 1000), ('ADV', 2500)],
          thorough=[('RACE', 60000), ('DUPLEX', 20000), ('ADV', 60000)],
          overrides={'*': {'settings_bias': {3: [0, 1, 1, 2, 3]}, 'at_limit_attempts': 0.4, 'ops_boost': {'open': 3, 'push': 3, 'settings': 2},
-                          'settings_churn': 0.1, 'adv_new_streams': 0.35}},
+                          'settings_churn': 0.1, 'adv_new_streams': 0.35, 'misuse': 0.15, 'misuse_focus': [1, 1, 2, 0], 'aftermath': 0.4}},
          rule=R_RUN + 'non-trivial = a run that reached a concurrency limit (either direction)' + R_DISTINCT))
 
 reg(Spec('C22', ['c22:C22'],
@@ -172,12 +180,13 @@ reg(Spec('C23', ['c23:C23'],
 reg(Spec('C24', ['c24:C24'],
          quick=[('DUPLEX', 1500), ('RACE', 800), ('ADV', 2000), ('MISUSE', 500)],
          thorough=[('DUPLEX', 30000), ('RACE', 20000), ('ADV', 50000), ('MISUSE', 10000)],
-         overrides={'*': {'ops_boost': {'altsvc': 6}}},
+         overrides={'*': {'ops_boost': {'altsvc': 6, 'trailers': 2}, 'misuse': 0.2, 'misuse_focus': [0, 12, 12, 13], 'aftermath': 0.4,
+                          'aftermath_fsm': True}},
          rule=R_RUN + 'non-trivial = an advertisement attempted by a client or on a half-closed/closed stream, or an ALTSVC frame delivered on a faulted direction' + R_DISTINCT))
 
 reg(Spec('C11', ['c11:C11'],
-         quick=[('RACE', 2500), ('DUPLEX', 1000), ('ADV', 1000), ('CORRUPT', 600)],
-         thorough=[('RACE', 60000), ('DUPLEX', 20000), ('ADV', 20000), ('CORRUPT', 20000)],
+         quick=[('RACE', 2500), ('DUPLEX', 1000), ('ADV', 1000), ('CORRUPT', 600), ('UPGRADE', 600)],
+         thorough=[('RACE', 60000), ('DUPLEX', 20000), ('ADV', 20000), ('CORRUPT', 20000), ('UPGRADE', 10000)],
          overrides={'*': {'ops_boost': {'settings': 5}, 'settings_churn': 0.15}},
          rule=R_RUN + 'non-trivial = at least two SETTINGS frames of one endpoint were outstanding at once' + R_DISTINCT))
 reg(Spec('C12', ['c12:C12'],
